@@ -192,7 +192,18 @@ def run_world(s, su, seed, wi, stats, viol, samples, mon_check=None):
     deliveries = [(("fin", k), b) for k, b in fins] + [(("junk", n), b) for n, b in junk]
     targets = [sid for sid, *_ in sids if state["cresp"].get(sid)]
     rnd.shuffle(targets)
+    # in a third of the worlds every pending server session is saved and restored (native / bincode / JSON) before any
+    # finalization is delivered, as a server that keeps its sessions in a store would do
+    persist = [None, "native", None, "bincode", None, "json"][(wi // 2) % 6]
+    stats["persisted_worlds"] = stats.get("persisted_worlds", 0) + int(persist is not None)
     for sid in targets:
+        if persist:
+            d = s.ser("sl." + sid, persist)
+            r = s.de("slogin", d.data if persist == "json" else bytes.fromhex(d.data), codec=persist, out="sl." + sid) if d.ok else d
+            ev += 2
+            if not r.ok:
+                viol.append({"sig": "C07 pending server session does not survive a %s save/restore" % persist, "what": "%s world %d: %s" % (su, wi, dict(r))})
+                continue
         for (kind, k), b in deliveries:
             s.de("cfin", b, out="x.f")
             r = s.cmd("slogin_finish", state="sl." + sid, fin="x.f")
